@@ -1,0 +1,214 @@
+//go:build verif
+
+package qr
+
+import (
+	"image"
+
+	"github.com/boombuler/barcode"
+)
+
+// Hooks for the /verif proof development (add-only, compiled only with -tags verif).
+// They expose unexported tables and intermediate results; they change nothing.
+
+// VerifVersionInfos returns the rows of versionInfos in source order:
+// {Version, Level, ErrorCorrectionCodewordsPerBlock, NumberOfBlocksInGroup1,
+//  DataCodeWordsPerBlockInGroup1, NumberOfBlocksInGroup2, DataCodeWordsPerBlockInGroup2}.
+func VerifVersionInfos() [][7]int {
+	res := make([][7]int, len(versionInfos))
+	for i, vi := range versionInfos {
+		res[i] = [7]int{int(vi.Version), int(vi.Level), int(vi.ErrorCorrectionCodewordsPerBlock),
+			int(vi.NumberOfBlocksInGroup1), int(vi.DataCodeWordsPerBlockInGroup1),
+			int(vi.NumberOfBlocksInGroup2), int(vi.DataCodeWordsPerBlockInGroup2)}
+	}
+	return res
+}
+
+// VerifFormatInfos returns formatInfos as level -> mask -> bits.
+func VerifFormatInfos() map[int]map[int][]bool {
+	res := map[int]map[int][]bool{}
+	for l, m := range formatInfos {
+		res[int(l)] = map[int][]bool{}
+		for k, v := range m {
+			res[int(l)][k] = append([]bool(nil), v...)
+		}
+	}
+	return res
+}
+
+// VerifVersionBits returns versionInfoBitsByVersion.
+func VerifVersionBits() map[int][]bool {
+	res := map[int][]bool{}
+	for k, v := range versionInfoBitsByVersion {
+		res[int(k)] = append([]bool(nil), v...)
+	}
+	return res
+}
+
+// VerifCharSet returns the alphanumeric character set.
+func VerifCharSet() string { return charSet }
+
+// VerifConsts returns the mode indicators numericMode, alphaNumericMode, byteMode, the
+// level constants L, M, Q, H and the Encoding constants Auto, Numeric, AlphaNumeric, Unicode.
+func VerifConsts() (modes [3]int, levels [4]int, encodings [4]int) {
+	return [3]int{int(numericMode), int(alphaNumericMode), int(byteMode)},
+		[4]int{int(L), int(M), int(Q), int(H)},
+		[4]int{int(Auto), int(Numeric), int(AlphaNumeric), int(Unicode)}
+}
+
+func verifVI(version int) *versionInfo {
+	return &versionInfo{Version: byte(version), Level: L}
+}
+
+// verifFindVI returns the table row for (version, level) or nil.
+func verifFindVI(version int, level int) *versionInfo {
+	for _, vi := range versionInfos {
+		if int(vi.Version) == version && int(vi.Level) == level {
+			return vi
+		}
+	}
+	return nil
+}
+
+// VerifAlignment returns alignmentPatternPlacements() for a version.
+func VerifAlignment(version int) []int { return verifVI(version).alignmentPatternPlacements() }
+
+// VerifCharCountBits returns charCountBits(mode) for a version (mode = raw mode indicator).
+func VerifCharCountBits(version int, mode int) int {
+	return int(verifVI(version).charCountBits(encodingMode(mode)))
+}
+
+// VerifTotalDataBytes returns totalDataBytes() of the table row, -1 if there is none.
+func VerifTotalDataBytes(version, level int) int {
+	vi := verifFindVI(version, level)
+	if vi == nil {
+		return -1
+	}
+	return vi.totalDataBytes()
+}
+
+// VerifBits runs the mode encoder only: the bit stream before block splitting and
+// the chosen table row (version, level).
+func VerifBits(content string, level ErrorCorrectionLevel, mode Encoding) (bits []bool, version int, lvl int, err error) {
+	bl, vi, err := mode.getEncoder()(content, level)
+	if err != nil {
+		return nil, 0, 0, err
+	}
+	bits = make([]bool, bl.Len())
+	for i := range bits {
+		bits[i] = bl.GetBit(i)
+	}
+	return bits, int(vi.Version), int(vi.Level), nil
+}
+
+// verifFunctionModules repeats the prologue of render (same helpers, same order)
+// on one result matrix: occupied and the values of the function modules, with the
+// format information of the given mask (-1: none drawn into the values).
+func verifFunctionModules(vi *versionInfo, mask int) (occupied, values *qrcode) {
+	dim := vi.modulWidth()
+	values = newBarCodeWithColor(dim, barcode.ColorScheme16)
+	occupied = newBarCodeWithColor(dim, barcode.ColorScheme16)
+	setAll := func(x int, y int, val bool) {
+		occupied.Set(x, y, true)
+		values.Set(x, y, val)
+	}
+	drawFinderPatterns(vi, setAll)
+	drawAlignmentPatterns(occupied, vi, setAll)
+	for i := 0; i < dim; i++ {
+		if !occupied.Get(i, 6) {
+			setAll(i, 6, i%2 == 0)
+		}
+		if !occupied.Get(6, i) {
+			setAll(6, i, i%2 == 0)
+		}
+	}
+	setAll(8, dim-8, true)
+	drawVersionInfo(vi, setAll)
+	drawFormatInfo(vi, -1, occupied.Set)
+	if mask >= 0 {
+		drawFormatInfo(vi, mask, values.Set)
+	}
+	return occupied, values
+}
+
+func verifMatrix(q *qrcode) [][]bool {
+	res := make([][]bool, q.dimension)
+	for y := range res {
+		res[y] = make([]bool, q.dimension)
+		for x := range res[y] {
+			res[y][x] = q.Get(x, y)
+		}
+	}
+	return res
+}
+
+// VerifFunctionModules returns, as rows [y][x], the occupancy matrix of the function
+// modules of a version and their values (format information of (level, mask) drawn
+// when mask >= 0).
+func VerifFunctionModules(version, level, mask int) (occupied, values [][]bool) {
+	vi := &versionInfo{Version: byte(version), Level: ErrorCorrectionLevel(level)}
+	o, v := verifFunctionModules(vi, mask)
+	return verifMatrix(o), verifMatrix(v)
+}
+
+// VerifModuleOrder returns the data-module placement order of a version.
+func VerifModuleOrder(version int) []image.Point {
+	o, _ := verifFunctionModules(verifVI(version), -1)
+	var res []image.Point
+	for pt := range iterateModules(o) {
+		res = append(res, pt)
+	}
+	return res
+}
+
+// VerifSetMasked returns the value setMasked writes for (x, y, val, mask); ok is
+// false if it did not call set exactly once at (x, y).
+func VerifSetMasked(x, y int, val bool, mask int) (res bool, ok bool) {
+	calls := 0
+	setMasked(x, y, val, mask, func(sx, sy int, v bool) {
+		calls++
+		if sx == x && sy == y {
+			res = v
+		} else {
+			calls += 2
+		}
+	})
+	return res, calls == 1
+}
+
+// VerifBlocks runs splitToBlocks and interleave of the table row (version, level)
+// on the given data codewords.
+func VerifBlocks(data []byte, version, level int) (interleaved []byte, blocksData, blocksEcc [][]byte, ok bool) {
+	vi := verifFindVI(version, level)
+	if vi == nil {
+		return nil, nil, nil, false
+	}
+	ch := make(chan byte)
+	go func() {
+		for _, b := range data {
+			ch <- b
+		}
+		close(ch)
+	}()
+	bl := splitToBlocks(ch, vi)
+	for range ch { // drain
+	}
+	for _, b := range bl {
+		blocksData = append(blocksData, b.data)
+		blocksEcc = append(blocksEcc, b.ecc)
+	}
+	return bl.interleave(vi), blocksData, blocksEcc, true
+}
+
+// VerifECC returns calcECC(data, eccCount).
+func VerifECC(data []byte, eccCount int) []byte { return ec.calcECC(data, byte(eccCount)) }
+
+// VerifRender renders the given interleaved codewords for the table row (version, level)
+// and returns the rows [y][x] of the symbol that render selected.
+func VerifRender(data []byte, version, level int) ([][]bool, bool) {
+	vi := verifFindVI(version, level)
+	if vi == nil {
+		return nil, false
+	}
+	return verifMatrix(render(data, vi, barcode.ColorScheme16)), true
+}
